@@ -585,6 +585,8 @@ class Interp:
             return Poly.const(len(it.items)), None, ("literal", list(it.items))
         if isinstance(it, Const) and isinstance(it.v, tuple):
             return Poly.const(len(it.v)), None, ("literal", [_const_to_v(x) for x in it.v])
+        if isinstance(it, Term) and it.op in ("m.split", "str.split"):
+            return Poly.app("ntokens", vstr(it.args[0])[:40]), (lambda i, it=it: Term("token", [it.args[0], Num(i)])), ("tokens", it)
         if isinstance(it, Term) and it.op in ("iterable",):
             ext = it.kw.get("len")
             return ext.p, (lambda i, it=it: Term("item", [it, Num(i)])), ("iterable", it)
